@@ -109,7 +109,8 @@ def main(prop, cfg, args, chk):
             ds = {}
             for nm in names:
                 rec = data[nm][i * 9:i * 9 + 9]
-                ds[nm] = rec[:8].hex() if len(rec) == 9 else 'missing(crash)'
+                if len(rec) == 9:
+                    ds[nm] = rec[:8].hex()   # configurations that aborted earlier simply have no record here
             if len(set(ds.values())) > 1:
                 diffs.append((i, ds))
         nt = 0
